@@ -335,7 +335,7 @@ func runCacheReader(in crIn) (out map[string]any) {
 		switch op.Op {
 		case "sync":
 			mp.set(op.Scopes)
-			ctx, cancel := context.WithCancel(context.Background())
+			ctx, cancel := ctxWithCause()
 			rd.cur, rd.cancel = op, cancel
 			err := cr.Sync(ctx)
 			rd.cur = nil
